@@ -373,7 +373,9 @@ class BacktestingDispatcher(EventDispatcher):
     async def _dispatch_events(self, dt: datetime.datetime):
         # Pop events, push them into the task pool, and wait those to finish executing.
         self._last_dt = dt
-        for source, evnt in self._event_mux.pop_while(dt):
+        # Pop all the events that are due before dispatching any of them. Handlers may push events into other sources
+        # while we're waiting for room in the task pool, and those should be dispatched in the next pass.
+        for source, evnt in list(self._event_mux.pop_while(dt)):
             await self._handlers_task_pool.push(
                 self._dispatch_event(EventDispatch(event=evnt, handlers=self._event_handlers.get(source, [])))
             )
